@@ -100,5 +100,33 @@ private def ex : Sim :=
     requests := [], applied := [], vIdx := ⟨[], []⟩, rIdx := ⟨[], []⟩, sIdx := ⟨[], []⟩, bIdx := ⟨[], []⟩ }
 example : inv07 ex = true := by decide
 
+/-- **a trip is started only at the request's origin, whoever proposes it**: every successful
+    entry into `ServicingTrip` - the default transition of a vehicle that has arrived, or a
+    transition proposed by a controller-defined instruction - finds the vehicle in the cell where
+    the request waits (also when the request's own route is empty because its origin and
+    destination coincide) -/
+theorem trip_starts_at_origin {env : Env} {w w2 : World} {v : VehicleId} {sreq : Request} {dep : Time} {route : Route}
+    (h : enter env w v (.servicingTrip sreq dep route) = .ok w2) :
+    ∃ veh req, w.sim.vehicle? v = some veh ∧ w.sim.request? sreq.id = some req ∧ veh.pos.cell = req.pos.cell := by
+  simp only [enter] at h
+  split at h
+  · cases h
+  · next veh hveh =>
+    split at h
+    · cases h
+    · next req hreq =>
+      split at h
+      · cases h
+      · split at h
+        · cases h
+        · split at h
+          · cases h
+          · split at h
+            · cases h
+            · next hc =>
+              have hc' : (veh.pos.cell == req.pos.cell && routeOk route veh.pos none) = true := by simpa using hc
+              simp only [Bool.and_eq_true, beq_iff_eq] at hc'
+              exact ⟨veh, req, hveh, hreq, hc'.1⟩
+
 end C07
 end Hive
